@@ -141,6 +141,11 @@ def c13(tier):
     with_model(run, "roll-int", dict(sc, maxlen=L - 1))
     run.submit(p1_job, "roll-dec", "MC_Def", {"prop": "C13", "cfgs": cf, "alphabet": [5, 12, 20, 31], "unit": 10, "maxlen": L - 1, "extras": True,
                                       "eps": [1, 1000000]})
+    # the same definitions over what an inner view delivers (a warm-up, a shift by a constant, a smoothing), not over the raw input
+    E_ = {"k": "Echo"}
+    inn = [{"k": "Sma", "n": 2}, {"k": "Add", "c": [E_, {"k": "Constant", "v": [3, 2]}]}, {"k": "Max", "n": 2}]
+    ch = [dict(c, c=[i]) for c in cf for i in inn]
+    run.submit(p1_job, "roll-chain", "MC_Def", {"prop": "C13", "cfgs": ch, "alphabet": [1, 2, 4, 7], "unit": 1, "maxlen": L - 1, "extras": True})
     # long positive streams (new peaks after deeper troughs, repeated peaks, monotone runs): exact running sums in the ghost state
     rnd = random.Random(77 + run.seed)
     n = 10000 if tier == "quick" else 1000000
@@ -265,6 +270,10 @@ def c04(tier):
         # recurrence (Ema, every alpha) and kernel (Alma) clauses: the definition
         run.submit(p1_job, "avg-def-n%d" % n, "MC_Def", sc)
         with_model(run, "avg-def-n%d" % n, sc)
+        # ... over what an inner view delivers (withheld first value, held values, a shift): counters count deliveries, not updates
+        if n <= 3:
+            chn = [dict(c, c=[i]) for c in c04_cfgs(n) for i in (sma(2), {"k": "Roc", "n": 1}, {"k": "Add", "c": [E, {"k": "Constant", "v": [3, 2]}]})]
+            run.submit(p1_job, "avg-chain-n%d" % n, "MC_Def", dict(sc, cfgs=chn, maxlen=min(L, 6)))
         # interval / constant / monotone for the averages the statement names (default alpha)
         sc2 = dict(sc); sc2["cfgs"] = [sma(n), ema(n), {"k": "Alma", "n": n}, {"k": "Alma", "n": n, "sigma": [3, 1], "offset": [1, 2]}]
         run.submit(p1_job, "avg-rel-n%d" % n, "MC_C04", sc2, nontrivial_keys=("interval",))
@@ -794,9 +803,11 @@ def residue_runs(rnd, n, length, big=(10**8, 10**9), signed=True):
             out += [rnd.randint(1, 2000) for _ in range(rnd.randint(n + 1, 2 * n + 2))]
     return out[:length]
 
-def flat_after_volatile(rnd, n, lo, hi):
+def flat_after_volatile(rnd, n, lo, hi, small=False):
     pre = [rnd.randint(lo, hi) for _ in range(rnd.randint(2, 3 * n + 2))]
     v = rnd.choice(pre + [rnd.randint(lo, hi)])
+    if small:
+        v = rnd.choice([0, 0, 1, -1, 2])       # zero, or tiny next to the prefix
     return pre + [v] * rnd.randint(n + 1, 2 * n + 2)
 
 @check("C16")
@@ -832,14 +843,15 @@ def c16(tier):
     # a volatile stretch followed by at least a full window of identical values: the exact flat-window answer, not residue
     flats = []
     kinds = ["Rsi", "MyRSI", "Vst", "Vsct", "WelfordOnline", "HLNormalizer", "CorrelationTrendIndicator", "NoiseEliminationTechnology", "Roc",
-             "CyberCycle", "Sma", "Ema", "Alma", "Cumulative", "Min", "Max"]
+             "CyberCycle", "Sma", "Ema", "Alma", "Cumulative", "Min", "Max", "CenterOfGravity", "BinaryEntropy"]
     reps = 12 if tier == "quick" else 120
     for k in kinds:
         for n in (2, 3, 5, 8):
-            for _ in range(reps):
+            for r in range(reps):
                 unit = rnd.choice([10, 100, 1000])
+                # every third stream ends flat at zero or at a value tiny next to the prefix (a sum that should be exactly 0 or nearly so)
                 flats.append({"cfg": {"k": k, "n": n}, "unit": unit, "mode": "full", "eps": [1, 10000], "float": "f64",
-                              "xs": flat_after_volatile(rnd, n, 1, 9999 if unit == 1000 else 999), "k": 1})
+                              "xs": flat_after_volatile(rnd, n, 1, 9999 if unit == 1000 else 999, small=(r % 3 == 2)), "k": 1})
     for i in range(0, len(flats), max(1, len(flats) // 3 + 1)):
         run.submit(p3_stream_job, "flat-%d" % (i // max(1, len(flats) // 3 + 1)), "C16", flats[i:i + len(flats) // 3 + 1])
     # the recursive views, for which "flat" takes much longer than a window: a volatile stretch, then 1200 identical values, validated
@@ -895,7 +907,7 @@ def c09(tier):
     ns = [1, 2, 3, 4, 5, 7, 9, 12, 16, 64, 128, 256] if tier == "quick" else list(range(1, 13)) + [16, 32, 64, 128, 200, 256, 512]
     lag = [{"k": "LaguerreFilter", "g": g} for g in ([0, 1], [1, 2], [9, 10])]
     progs = []; meta = []
-    def add(cfg, kind, xa, xb=None, unit=10, maxabs=1000, tailabs=None):
+    def add(cfg, kind, xa, xb=None, unit=10, maxabs=1000, tailabs=None, tail=None):
         pr = [["new", 0, cfg], ["uss", 0, xa, k]]
         if xb is not None:
             pr += [["new", 1, cfg], ["uss", 1, xb, k]]
@@ -903,6 +915,8 @@ def c09(tier):
         m = {"cfg": cfg, "kind": kind, "unit": unit, "maxabs": maxabs, "len": len(xa)}
         if tailabs is not None:
             m["tailabs"] = tailabs
+        if tail is not None:
+            m["tail"] = tail
         meta.append(m)
     for nn, cfg in [(nn, c) for nn in ns for c in c09_views(nn)] + [(1, c) for c in lag]:
         # "converge geometrically": the rate is the view's own (about 2/N per step for the slowest); the common tail is long enough
@@ -914,6 +928,13 @@ def c09(tier):
         tail = [rnd.randint(-1000, 1000) for _ in range(H)]
         add(cfg, "pair", [rnd.randint(-1000, 1000) for _ in range(2000)] + tail, [1000, -1000] * 1000 + tail)
         add(cfg, "pair", [0] * 2000 + tail, [rnd.choice([-1000, 1000]) for _ in range(2000)] + tail)
+        # the common tail is a constant, and a staircase (runs of equal values): a filter that stops stepping while its input does
+        # not move keeps the two pasts apart for ever
+        flat = [rnd.randint(-1000, 1000)] * H
+        add(cfg, "pair", [rnd.randint(-1000, 1000) for _ in range(500)] + flat, [rnd.randint(-1000, 1000) for _ in range(500)] + flat, tail="constant")
+        add(cfg, "pair", [-1000] * 50 + [0] * H, [1000] * 50 + [0] * H, tail="constant")      # approach from below / from above
+        stair = [v for _ in range(H // 8 + 1) for v in [rnd.randint(-1000, 1000)] * 8][:H]
+        add(cfg, "pair", [rnd.randint(-1000, 1000) for _ in range(500)] + stair, [1000, -1000] * 250 + stair)
         # a loud past followed by a quiet common tail: anything that remembers an extreme of the past (a running maximum
         # used for normalisation, a peak that never decays) keeps the two runs apart
         quiet = [rnd.randint(-60, 60) for _ in range(H)]
